@@ -97,7 +97,7 @@ with concurrent.futures.ThreadPoolExecutor(max_workers=8) as ex:
 # moment, then one PUBLISH per channel: nobody may stay blocked
 import subprocess
 st_tool = ks.build_tool("substorm")
-sp = subprocess.run([st_tool, "-seed", str(seed), "-rounds", "6000" if tier == "quick" else "60000"], stdout=subprocess.PIPE, stderr=subprocess.PIPE, text=True, timeout=3000)
+sp = subprocess.run([st_tool, "-seed", str(seed), "-rounds", "4000" if tier == "quick" else "60000"], stdout=subprocess.PIPE, stderr=subprocess.PIPE, text=True, timeout=3000)
 for line in sp.stdout.splitlines():
     if line.startswith("SUMMARY "):
         cov["subscribe_storm"] = json.loads(line[8:])
